@@ -92,10 +92,8 @@ func intGrid(tier string) []numv {
 			}
 		}
 	}
-	lim := int64(12)
-	if tier == "thorough" {
-		lim = 40
-	}
+	lim := int64(40) // both tiers
+	_ = tier
 	for i := -lim; i <= lim; i++ {
 		set[i] = true
 	}
@@ -493,7 +491,7 @@ func init() {
 					}
 				}
 			}})
-			if tier == "thorough" {
+			if tier == "thorough" || tier == "quick" { // depth-2 expressions in both tiers: 2 s
 				sub := []numv{}
 				for _, v := range []int64{0, 1, -1, 2, -2, 3, 7, 46340, 46341, -46341, 65536, math.MaxInt32, math.MinInt32, math.MaxInt32 - 1, math.MinInt32 + 1} {
 					sub = append(sub, intNum(v))
